@@ -4,6 +4,7 @@ import Verif.Model.SvgPath
 import Verif.Proofs.SvgGeom
 import Verif.Proofs.SvgLex
 import Verif.Proofs.SvgParse
+import Verif.Proofs.SvgModel
 /-!
 # C05 — SVG path minification preserves the absolute segments
 
@@ -12,7 +13,7 @@ guards: `Verif.Spec.SvgHazard`; model of `/repo/svg/pathdata.go`: `Verif.Model.S
 -/
 namespace Verif.Props.C05
 open Verif.Spec.SvgPath Verif.Spec.SvgHazard Verif.Model.SvgPath Verif.Proofs.SvgGeom
-open Verif.Proofs.SvgLex Verif.Proofs.SvgParse
+open Verif.Proofs.SvgLex Verif.Proofs.SvgParse Verif.Proofs.SvgModel
 
 /-! ## path_lex_roundtrip: separator elision never merges or splits tokens
 
@@ -63,6 +64,34 @@ example : renderGroups [⟨true, .M, false, [.num "10".toList, .num "-.5".toList
       ⟨false, .L, false, [.num ".5".toList, .num "0".toList]⟩,
       ⟨false, .A, true, [.num "100".toList, .num "1".toList, .num "0".toList, .flag false, .flag true, .num "1".toList, .num "1e3".toList]⟩]
     = "M10-.5.5.0a1e2 1 0 011 1e3".toList := by decide
+
+/-- **the output of the model of `ShortenPathData` is valid path data, for every input**: whenever the
+    scanner finds a command (`scan d = some is`; otherwise the input is returned unchanged) the output
+    lexes and parses, and the parsed commands are exactly the groups `copyInstruction` chose
+    (rewritten command, absolute or relative alternative) — no token is merged, split or re-attributed to
+    another command by letter omission, separator elision, compact flags, `.0` or `e2`.
+    Hypothesis: the numbers that were printed have the `minify.Number` output shape (C08.5; the harness
+    checks `goodNum` on every output of the real function).  No validity assumption on `d`. -/
+theorem shorten_output_parses (P : NumPr) (d : List Char) (is : List Instr)
+    (hscan : scan d = some is) (hlen : d.length ≤ maxLen)
+    (hgood : ∀ g ∈ groupsOfInstrs P is, ∀ s, PItem.num s ∈ g.items → goodNum s = true) :
+    parse (shortenWith P d) = some (groupsCmds {} (groupsOfInstrs P is)) := by
+  have hl : ¬ maxLen < d.length := by omega
+  simp only [shortenWith, hl, if_false, hscan]
+  apply path_parse_roundtrip
+  intro g hg
+  have h := groupsOfInstrs_wf P is g hg
+  exact ⟨h.len, hgood g hg, h.ok, h.force⟩
+
+/-- the same for any number printers that always produce the `minify.Number` shape -/
+theorem shorten_output_parses_of_contract (P : NumPr) (hc : ∀ s, goodNum (P.cur s) = true) (ha : ∀ v, goodNum (P.alt v) = true)
+    (d : List Char) (is : List Instr) (hscan : scan d = some is) (hlen : d.length ≤ maxLen) :
+    parse (shortenWith P d) = some (groupsCmds {} (groupsOfInstrs P is)) := by
+  apply shorten_output_parses P d is hscan hlen
+  intro g hg s hs
+  exact printed_good P hc ha is g hg s hs
+
+example : scan "M10 10L20 10 20 10C1 2 3 4 5 6".toList ≠ none := by decide
 
 /-! ## copy_geometry: each rewrite of `copyInstruction` denotes the same absolute segment(s)
 
